@@ -549,7 +549,13 @@ async fn decode_and_verify_responses(
         // Make sure that starting header is the requested one and that
         // there are no gaps in the chain
         (Some(Data::Origin(start)), amount) if *start > 0 && amount > 0 => {
-            for (header, height) in headers.iter().zip(*start..*start + amount as u64) {
+            for (i, header) in headers.iter().enumerate() {
+                // `start + i` is not representable only if the peer sent more headers
+                // than there are heights from `start` on, so the response is invalid.
+                let Some(height) = start.checked_add(i as u64) else {
+                    return Err(HeaderExError::InvalidResponse);
+                };
+
                 if header.height() != height {
                     return Err(HeaderExError::InvalidResponse);
                 }
